@@ -132,6 +132,19 @@ func c11Root(r *rand.Rand, i int) (gen.Hist, string) {
 	}
 }
 
+// ttSafeDepth caps the depth so that no threefold repetition can arise inside the tree (the scope of C11):
+// with two or more plies of (repetition-free) history a position two plies back can be reached again after
+// 2 plies and once more after 6, so depth 6 is out; with at most one ply of history 7 plies are needed.
+func ttSafeDepth(h gen.Hist, depth int) int {
+	if len(h.Moves) >= 2 && depth > 5 {
+		return 5
+	}
+	if depth > 6 {
+		return 6
+	}
+	return depth
+}
+
 // abValue is the no-table full-window value (alpha-beta itself is validated against the reference by C03).
 func abValue(s search.Search, b *board.Board, depth int) (eval.Score, []board.Move, uint64, error) {
 	n, sc, pv, err := s.Search(budgetCtx(), fullWindow(), b, depth)
@@ -361,6 +374,9 @@ func runC11(c *fw.Ctx, cs fw.Case) {
 			bud /= 8
 		}
 		depth := depthFor(n0, n1, bud, 6)
+		if seq := 0; seq == 0 {
+			depth = ttSafeDepth(h, depth)
+		}
 		inner, tname := newTable(ctx, r.Intn(7))
 		tt := &recTable{TranspositionTable: inner, every: 1 + r.Intn(40)}
 		s, _, _ := cfg.mk()
@@ -396,6 +412,7 @@ func runC11(c *fw.Ctx, cs fw.Case) {
 				if r.Intn(3) == 0 && d > 1 {
 					d--
 				}
+				d = ttSafeDepth(g, d)
 				pv, ok := checkTTSearch(c, s, g, d, tt, full(), what+fmt.Sprintf(" game ply %d", k))
 				if !ok || len(pv) == 0 {
 					break
@@ -448,7 +465,7 @@ func runC11(c *fw.Ctx, cs fw.Case) {
 				m := ms[r.Intn(len(ms))]
 				sib := gen.Hist{Start: h.Start, Moves: append(append([]ref.Move{}, h.Moves...), m)}
 				if repetitionFree(sib) {
-					checkTTSearch(c, s, sib, depth, tt, full(), what+" (sibling first)")
+					checkTTSearch(c, s, sib, ttSafeDepth(sib, depth), tt, full(), what+" (sibling first)")
 				}
 			}
 			checkTTSearch(c, s, h, depth, tt, full(), what)
